@@ -886,6 +886,16 @@ fn run_history(c: &PrintCase, reference: &str, ctx: &mut Ctx) -> CheckResult {
                 ensure!(mask(&twin_log) == mask(reference), "two fresh solver objects given the same problem print different logs: {}", first_diff(&mask(&twin_log), &mask(reference)));
             } else if mask(&twin_log) != mask(reference) {
                 ctx.label("resolve-log-differs-from-first-solve");
+                let foot = |t: &str| t.lines().find(|l| l.starts_with("Terminated with status")).unwrap_or("").to_string();
+                if foot(&twin_log) != foot(reference) {
+                    ctx.label("resolve-status-differs-from-first-solve");
+                    if std::env::var("VERIF_C20_SHOW_RESOLVE").is_ok() {
+                        eprintln!("RESOLVE-STATUS {} vs {}", foot(&twin_log), foot(reference));
+                    }
+                }
+                if std::env::var("VERIF_C20_SHOW_RESOLVE").is_ok() {
+                    eprintln!("RESOLVE-DIFFERS {} :: {}", first_diff(&mask(&twin_log), &mask(reference)), serde_json::to_string(&c.ps).unwrap_or_default());
+                }
             }
             if step.verbose {
                 if let Some(ci) = cur {
